@@ -678,3 +678,64 @@ def _hc_dropped():
         return ok and _run(registered_case(line)) is not None
     finally:
         API.process = real
+
+
+# ---------------------------------------------------------------------------------------------------------------------
+# a command which parses and cannot be applied to EVERY selected neighbor (next-hop self of a family one of the sessions
+# has no address for): whatever it is answered, `error` means no Adj-RIB-Out was changed -- whichever neighbor comes first
+MIXED = """
+process p {
+    run /bin/true;
+    encoder json;
+}
+neighbor %s {
+    router-id 1.2.3.4; local-address %s; local-as 65000; peer-as 65001;
+    family { ipv4 unicast; ipv6 unicast; }
+    api { processes [ p ]; }
+}
+neighbor %s {
+    router-id 1.2.3.4; local-address %s; local-as 65000; peer-as 65002;
+    family { ipv4 unicast; ipv6 unicast; }
+    api { processes [ p ]; }
+}
+"""
+V4N, V6N = ('127.0.0.1', '127.0.0.1'), ('::1', '::1')
+PARTIAL_LINES = [
+    'peer * announce route 2001:db8::5/128 next-hop self med 101',
+    'peer * withdraw route 2001:db8::5/128 next-hop self',
+    'peer * announce route 10.0.0.1/32 next-hop self med 100',
+    'peer * announce route 2001:db8::6/128 next-hop 2001:db8::1',
+    'peer * announce ipv6 unicast 2001:db8::7/128 next-hop self',
+]
+
+
+async def _partial_case(order, line):
+    global TWO_NEIGHBORS
+    saved = TWO_NEIGHBORS
+    a, b = (V4N, V6N) if order == 'ipv4-session first' else (V6N, V4N)
+    TWO_NEIGHBORS = MIXED % (a[0], a[1], b[0], b[1])
+    try:
+        f = await registered_case(line)
+    finally:
+        TWO_NEIGHBORS = saved
+    if f:
+        f['input']['neighbors'] = order
+    return f
+
+
+@bounded('C14', 'partly-applicable-commands')
+def partly_applicable(tier, seed):
+    fails, evals = [], 0
+    for order in ('ipv4-session first', 'ipv6-session first'):
+        for line in PARTIAL_LINES:
+            evals += 1
+            with _quiet():
+                f = _run(_partial_case(order, line))
+            if f:
+                fails.append(f)
+    return {'evaluations': evals, 'distinct_nontrivial': evals, 'exhaustive': True, 'bound': f'{len(PARTIAL_LINES)} route commands with next-hop self / an explicit next hop to `peer *` of two neighbors speaking both families, one over an IPv4 and one over an IPv6 session, in both configuration orders, each followed by an unknown command: one terminal reply each, and a command answered error has changed no Adj-RIB-Out', 'rule': 'one case = (neighbor order, command)', 'samples': [{'commands': [PARTIAL_LINES[0]], 'neighbors': 'ipv6-session first'}], 'failures': fails}
+
+
+@replayer('C14', 'partly-applicable-commands')
+def _replay_partial(f):
+    return _run(_partial_case(f['input']['neighbors'], f['input']['commands'][0])) is None
